@@ -126,7 +126,7 @@ SRC_TIE = {
     "C05": ["activateSync", "activateAsync", "triggerSync", "triggerAsync", "processSync", "processAsync"] + _W + _G + _A,
     "C08": _W + _G + ["parser"],
     "C11": ["triggerSync", "triggerAsync", "engineStart", "store", "smInit", "engBase"],
-    "C14": ["activateSync", "activateAsync"] + _W + _A,
+    "C14": ["activateSync", "activateAsync", "triggerSync", "triggerAsync", "processSync", "processAsync"] + _W + _A,
 }
 TIE_MOD = "SMV.Src.Tie"
 TIE_MODS = ["SMV.Src.Tie", "SMV.Src.TieExpr"]
